@@ -93,6 +93,9 @@ type c02Tok struct {
 	CIDR        string     `json:"cidr,omitempty"`
 	Entity      *c02Entity `json:"entity,omitempty"`
 	Via         *c02Mount  `json:"-"` // auth mount that issued the token: disabling it revokes the token
+	// Keys: the storage names of a service token's records, read from the physical log of its
+	// creation (fault predicates for its revocation, evidence about its raw record)
+	Keys *c02Keys `json:"-"`
 }
 
 // liveness: "live", "dead" or "unknown" with the reason.
@@ -455,6 +458,10 @@ func (w *c02World) judge(q *c02Req, now time.Time) *c02Verdict {
 	v := &c02Verdict{Op: q.Op}
 	if q.Tok != nil {
 		v.TokState = q.Tok.Kind
+		if p := q.Tok.ParentTok; p != nil && !q.Tok.Forged {
+			// a batch token is as alive as the service token that created it
+			v.TokState = "batch-of-" + p.Kind + "-parent"
+		}
 	} else {
 		v.TokState = "absent"
 	}
